@@ -10,6 +10,7 @@ from ..core import AnalysisError, Cls, Fn, Repo, call_name, calls_in, const_valu
 from ..pat import has
 from ..report import Check
 from ..util import self_attr_stores
+from ._c20_channels import channel_typestate
 
 LOOPS = {
     "train_off_policy": "agilerl.training.train_off_policy",
@@ -69,6 +70,12 @@ def run(ck: Check, repo: Repo) -> None:
     _population(ck, repo)
     _eval_vs_rollout(ck, repo)
     _buffer_idiom(ck, repo)
+    ck.rule("C20.12", "a generation in which no episode finished is handled: np.stack / np.concatenate over a filtered list of the training loops runs "
+                      "only under a test of that same list (the filter can leave it empty; stacking an empty list raises)")
+    _guarded_reductions(ck, repo)
+    ck.rule("C20.11", "channel-order typestate: with swap_channels every observation that travels from env.reset / env.step to get_action, the "
+                      "stored transition or learn() is converted to channels-first exactly once on every path (never twice, never not at all)")
+    channel_typestate(ck, repo, [repo.fn(m, f) for f, m in LOOPS.items()] + [repo.cls(m, c).methods["test"] for m, c in TESTERS if "test" in repo.cls(m, c).methods], "C20.11")
 
 
 # ------------------------------------------------------------------------------------------------ roles of locals
@@ -274,6 +281,52 @@ def _sampled_keys(ck: Check, repo: Repo) -> None:
             ck.ob("C20.1", fn, sub, bad is None, f"{fname}: a batch whose sampled indices are read was sampled with the indices requested", detail=bad or "",
                   construct=f"{fname}: read of batch['idxs'] / the sample call that produced the batch")
     ck.floor("C20.1", nreads, 4, "reads of the sampled indices inside the training loops")
+
+
+def _guarded_reductions(ck: Check, repo: Repo) -> None:
+    n_sites = 0
+    for fname, modname in LOOPS.items():
+        fn = repo.fn(modname, fname)
+        cfg = None
+        for c in calls_in(fn.node):
+            if last_attr(c) not in ("stack", "concatenate", "vstack", "hstack") or not c.args or not isinstance(c.args[0], ast.Name):
+                continue
+            cfg = cfg or CFG(fn.node)
+            at = cfg.node_of(c)
+            if at is None:
+                continue
+            name = c.args[0].id
+            defs = [cfg.value_of_def(d, name) for d in cfg.defs_reaching(at, name)]
+            # the operand is a list built with a filter: it can be empty whatever the size of what it was built from
+            if not defs or not all(isinstance(v, ast.ListComp) and any(g.ifs for g in v.generators) for v in defs):
+                continue
+            n_sites += 1
+            tested = [g for g, pol, _ in cfg.guards_at(at) if pol and _tests_nonempty(g, name)]
+            others = [ast.unparse(g) for g, pol, _ in cfg.guards_at(at) if pol and not _tests_nonempty(g, name)]
+            ck.ob("C20.12", fn, c, bool(tested), f"{fname}: `{short(c, 50)}` runs only when the filtered list it stacks is non-empty",
+                  detail="" if tested else f"`{name}` is built with a filter and may be empty; the enclosing tests are {others[-2:]}, none of them tests `{name}`",
+                  construct=f"{fname}: stack over the filtered list / its emptiness test")
+    ck.floor("C20.12", n_sites, 2, "stack calls over filtered lists in the training loops")
+
+
+def _tests_nonempty(g: ast.AST, name: str) -> bool:
+    """g is `name`, `len(name)`, `0 < len(name)`, `len(name) != 0`, or a conjunction with one of them."""
+    if isinstance(g, ast.Name):
+        return g.id == name
+    if isinstance(g, ast.BoolOp) and isinstance(g.op, ast.And):
+        return any(_tests_nonempty(v, name) for v in g.values)
+    is_len = lambda e: isinstance(e, ast.Call) and call_name(e) == "len" and len(e.args) == 1 and isinstance(e.args[0], ast.Name) and e.args[0].id == name
+    if is_len(g):
+        return True
+    if isinstance(g, ast.Compare) and len(g.ops) == 1:
+        l, op, r = g.left, g.ops[0], g.comparators[0]
+        if is_len(r) and isinstance(op, ast.Lt) and const_value(l) == 0:
+            return True
+        if is_len(r) and isinstance(op, ast.LtE) and const_value(l) == 1:
+            return True
+        if is_len(l) and isinstance(op, ast.NotEq) and const_value(r) == 0:
+            return True
+    return False
 
 
 def _protocol_isinstance(ck: Check, repo: Repo) -> None:
@@ -567,6 +620,22 @@ _TO = "agilerl/training/train_off_policy.py"
 _TON = "agilerl/training/train_on_policy.py"
 _TMA = "agilerl/training/train_multi_agent_off_policy.py"
 VARIANTS = [
+    ("ma-stack-guarded-by-the-unfiltered-list", _TMA, "            if pop_mean_scores:\n", "            if pop_episode_scores:\n", "fire", "C20.12"),
+    ("ma-stack-guarded-by-len-ok", _TMA, "            if pop_mean_scores:\n", "            if len(pop_mean_scores) > 0:\n", "silent", None),
+
+    ("off-policy-state-swapped-every-step", _TO, "            for idx_step in range(evo_steps // num_envs):\n                # Get next action from agent\n",
+     "            for idx_step in range(evo_steps // num_envs):\n                if swap_channels:\n                    state = obs_channels_to_first(state)\n                # Get next action from agent\n", "fire", "C20.11"),
+    ("off-policy-first-state-never-swapped", _TO, "            state, info = env.reset()  # Reset environment at start of episode\n            if swap_channels:\n                state = obs_channels_to_first(state)\n",
+     "            state, info = env.reset()  # Reset environment at start of episode\n", "fire", "C20.11"),
+    ("off-policy-on-policy-idiom-ok", _TO, "                next_state = (\n                    obs_channels_to_first(next_state) if swap_channels else next_state\n                )\n",
+     "                raw_next_state = next_state\n                next_state = (\n                    obs_channels_to_first(next_state) if swap_channels else next_state\n                )\n", "silent", None),
+    ("on-policy-carried-state-swapped-twice", _TON, "                    state = next_state\n                    done = next_done\n",
+     "                    state = obs_channels_to_first(next_state) if swap_channels else next_state\n                    done = next_done\n", "fire", "C20.11"),
+    ("on-policy-final-next-state-raw", _TON, "                if swap_channels:\n                    next_state = obs_channels_to_first(next_state)\n\n                experiences = (", "                experiences = (", "fire", "C20.11"),
+    ("ma-off-policy-reset-obs-raw", _TMA, "                            obs, info = env.reset()\n                            if swap_channels:\n                                obs = {\n                                    agent_id: obs_channels_to_first(\n                                        s, expand_dims=True\n                                    )\n                                    for agent_id, s in obs.items()\n                                }\n",
+     "                            obs, info = env.reset()\n", "fire", "C20.11"),
+    ("ma-off-policy-next-obs-moveaxis-dropped", _TMA, "                    next_obs = {\n                        agent_id: np.moveaxis(ns, [-1], [-3])\n                        for agent_id, ns in next_obs.items()\n                    }\n", "", "fire", "C20.11"),
+
     ("off-policy-second-learn-block-no-indices", _TO, "                        else:\n                            experiences = sampler.sample(\n                                agent.batch_size,\n                                return_idx=True if n_step_memory is not None else False,\n                            )\n                            if n_step_memory is not None:\n                                n_step_experiences = n_step_sampler.sample(\n                                    experiences[\"idxs\"]\n                                )\n                                loss, *_ = agent.learn(\n                                    experiences, n_experiences=n_step_experiences\n                                )\n                            else:\n                                loss = agent.learn(experiences)\n                                if isinstance(agent, RainbowDQN):\n                                    loss, *_ = loss\n\n                if loss is not None:",
      "                        else:\n                            experiences = sampler.sample(agent.batch_size)\n                            if n_step_memory is not None:\n                                n_step_experiences = n_step_sampler.sample(\n                                    experiences[\"idxs\"]\n                                )\n                                loss, *_ = agent.learn(\n                                    experiences, n_experiences=n_step_experiences\n                                )\n                            else:\n                                loss = agent.learn(experiences)\n                                if isinstance(agent, RainbowDQN):\n                                    loss, *_ = loss\n\n                if loss is not None:", "fire", "C20.1"),
 
